@@ -143,6 +143,34 @@ class Ctx:
         self.counters["persistent_buffer_reuses"] = self.counters.get("persistent_buffer_reuses", 0) + 1
         return b
 
+    def fresh_outputs(self, name, fn, *args, case=None, **kwargs):
+        """Call ``fn`` twice on the same arguments; between the calls every ndarray returned by the first call is
+        scrambled in place.  The second result must equal a copy of the first: a function that hands out a cached
+        or shared array (so that a caller's in-place edit changes what later callers receive) fails this."""
+        import numpy as np
+
+        def arrays(r):
+            if isinstance(r, np.ndarray):
+                return [r]
+            if isinstance(r, (tuple, list)):
+                return [a for x in r for a in arrays(x)]
+            if isinstance(r, dict):
+                return [a for x in r.values() for a in arrays(x)]
+            return []
+
+        r1 = fn(*args, **kwargs)
+        a1 = arrays(r1)
+        keep = [a.copy() for a in a1]
+        for a in a1:
+            if a.flags.writeable and a.dtype.kind in "fc":
+                a *= -3.7
+                a += 1.0
+        r2 = fn(*args, **kwargs)
+        a2 = arrays(r2)
+        ok = len(a2) == len(keep) and all(x.shape == y.shape and np.array_equal(x, y, equal_nan=True) for x, y in zip(a2, keep))
+        self.check("returned_arrays_are_fresh", ok, case, key=f"returned_arrays_are_fresh/{name}", fn=name)
+        return r2
+
     # ---- recording --------------------------------------------------------------------
     def count(self, name, k=1):
         self.counters[name] = self.counters.get(name, 0) + int(k)
